@@ -317,3 +317,18 @@ Example C07_example_sync :
   /\ handlers_of_ex (r_out r) = [(0%nat, 1, EE 1 0); (0%nat, 2, EE 2 1); (1%nat, 3, EN 0); (1%nat, 3, EN 1); (1%nat, 3, EN 2)]
   /\ map (getc (cw_st (world (r_final r)))) [0; 1; 2]%Z = [Some 2; Some 2; Some 2]%Z.
 Proof. cbv zeta. repeat split; vm_compute; reflexivity. Qed.
+
+(* SIR_FixedRecovery, T = 3/2, same network: the seed 0 is removed at 3/2, node 1 (infected at 1) at
+   5/2, node 2 (infected at 2) at 7/2, under both schedulers *)
+Example C07_example_fixed_recovery :
+  let tb := mk_table (sir_fr_cm 1 (3 # 2)) [0; 1; 2]%Z [(0, 1); (1, 2)]%Z [(0, 1); (1, 3); (2, 3)]%Z 6 None in
+  let r := sync_run tb 50 50 [1#2; 1#2; 1#2; 1#2] [] in
+  let r' := stoch_run tb 50 50 [1#2; 1#2; 1#2; 1#2; 1#2; 1#2] [1; 1; 1; 1] [0; 0; 0; 0]%nat in
+  wf_model (sir_fr_cm 1 (3 # 2)) = true /\ fixed_ok (sir_fr_cm 1 (3 # 2)) = true
+  /\ init_ok (sir_fr_cm 1 (3 # 2)) [0; 1; 2]%Z [(0, 1); (1, 3); (2, 3)]%Z = true
+  /\ r_stuck r = false /\ handlers_of_ex (r_out r) = [(0%nat, 1, EE 1 0); (0%nat, 2, EE 2 1)]
+  /\ posted_of_ex (r_out r) = [(1%nat, 3 # 2, EN 0); (1%nat, 5 # 2, EN 1); (1%nat, 7 # 2, EN 2)]
+  /\ r_stuck r' = false /\ handlers_of_ex (r_out r') = [(0%nat, 1, EE 1 0); (0%nat, 2, EE 2 1)]
+  /\ posted_of_ex (r_out r') = [(1%nat, 3 # 2, EN 0); (1%nat, 5 # 2, EN 1); (1%nat, 7 # 2, EN 2)]
+  /\ map (getc (cw_st (world (r_final r)))) [0; 1; 2]%Z = [Some 2; Some 2; Some 2]%Z.
+Proof. cbv zeta. repeat split; vm_compute; reflexivity. Qed.
